@@ -226,6 +226,7 @@ fn run(case: &Value) -> Value {
     match case["k"].as_str() {
         Some("mpsc") => run_mpsc(case),
         Some("wake") => wake::run_wake(case),
+        Some("wake2") => wake::run_wake2(case),
         _ => json!({"bad_case": "unknown kind"}),
     }
 }
